@@ -26,6 +26,7 @@
    through operations on its own handles. *)
 From GX.Model Require Import Base Redis RedisCMS RedisHLL RedisBloom RedisCuckoo Heap TopK RedisTopK.
 From GX.Proofs Require Import ListLemmas RedisProofs FrameProofs CuckooFrame TopKFrame FrameAll.
+From GX.Proofs Require Import NonVacuity.
 
 Theorem C19_decimal_injective : forall a b, dec a = dec b -> a = b.
 Proof. exact dec_injective. Qed.
@@ -167,6 +168,10 @@ Proof. exact topk_new_writes. Qed.
 Theorem C19_topk_import_heap_writes_own_key : forall s hkey entries k, k <> hkey ->
   sget (rtopk_import_heap s hkey entries) k = sget s k.
 Proof. exact topk_import_heap_writes. Qed.
+
+Example C19_cuckoo_disjointness_premises_hold : forall k,
+  Kck (mkRck 4 2 2 5 k_a k_m) k -> Kck (mkRck 4 2 2 5 k_b k_n) k -> False.
+Proof. exact cuckoo_disjoint_inhabited. Qed.
 
 Print Assumptions C19_decimal_injective.
 Print Assumptions C19_row_key_injective.
